@@ -100,6 +100,12 @@ CHECKS = {
    text="Every shape of the statement (raw pointers, raw function pointers, pointer arrays, foreign-sandbox wrappers into tainted/tainted_volatile/call arguments/callback results; malformed callback signatures; function-pointer type agreement) "
         "is compiled and must be rejected, with must-accept controls for each well-formed shape; assign_raw_pointer (both forms) and UNSAFE_accept_pointer are shown to store only a value dominated by the membership abort check of the same value on the same sandbox.",
    note="trusted: clang 14 as judge; backend membership predicate exact", ref="3/C02"),
+ "C03": dict(level="other", technique="inductive producer discipline: every site that creates a tainted object pointer is classified by a justification idiom over the path-sensitive event model",
+   text="Enumerates, in every analysed entry function (all public members and free functions, inlined) and on every path, each store of an object-pointer value into a tainted wrapper (or tainted struct field) and requires one of the "
+        "accepted derivations: null, backend translation/grant, dominating membership abort check, dominating base != null and same-sandbox(base, value) with a justified base, address inside a tainted_volatile, or copy of an existing tainted pointer; "
+        "the lvalue-manufacturing operators must null-check; malloc_in_sandbox must check start and last element. Chains of operations are covered by induction over producers; the 2^32 representations are the backend translation's contract. "
+        "The missing null check in operator*/operator-> is a recorded known finding.",
+   note="trusted: backend contract (translation yields in-region addresses; predicates exact); clang front end; engine", ref="3/C03"),
 }
 NA_REASON = "check under construction in this revision (see DESIGN.md section 3 for the planned static rules); not claimed yet"
 
